@@ -17,7 +17,7 @@ EXTRACT = ["C10"]
 BINS = ["c10"]
 NEEDS_CICADA = True
 ALLOWED_AXIOMS = []
-PINNED = ["C10_full", "C10_refuted", "C10_partial", "C10_diverges", "C10_single_quoted",
+PINNED = ["C10_full", "C10_refuted", "C10_partial", "C10_diverges", "C10_single_quoted", "C10_do_expansion_inert",
           "C10_refuted_rescan", "C10_refuted_self_reference", "C10_refuted_newline", "C10_refuted_unterminated"]
 TRUSTED = [
     "Coq 8.16.1 kernel (coqc; coqchk in thorough); vm_compute only in concrete witnesses / non-vacuity examples",
@@ -258,6 +258,10 @@ def run(ctx, res):
                         failing_input=False, note="c10_dom (Coq) and the driver's class predicate disagree")
         if a != b:
             # model and implementation differ
+            if got == exp and cls and any(c in known or (c + "_hang") in known for c in cls):
+                # inside a recorded class the implementation now meets the oracle: a repair (DESIGN 4.5)
+                res.extra["known_class_cases_meeting_the_oracle"] = res.extra.get("known_class_cases_meeting_the_oracle", 0) + 1
+                continue
             if got == exp:
                 violate(kind="correspondence", layer="L1", input=w, tag=tg, env=env_desc, model=a, impl=b,
                         failing_input=False, note="implementation meets the oracle here but differs from the model")
